@@ -31,6 +31,7 @@ def run(F, X, rep):
     R.p2_exactly_one_answer(C, rep, "C06-P2")
     H.p3_answer_reaches_everyone(C, rep, "C06-P3")
     H.p4_p5_register_or_return(C, rep, "C06-P4")
+    H.p4b_answer_only_via_lifecycle(C, rep, "C06-P4")
     H.p6_no_blocking_under_lock(C, rep, "C06-P6")
     R.t1_timer_value(C, rep, "C06-P7")
     R.t2_zero_means_immediate(C, rep, "C06-P7")
